@@ -5,6 +5,8 @@ VERIF = os.path.dirname(os.path.abspath(__file__))
 REPO = os.path.abspath(os.environ.get("VERIF_REPO", "/repo"))
 NCPU = os.cpu_count() or 4
 GUARD = "cryptocorrosion_verif"
+BE_TARGET = "s390x-unknown-linux-gnu"
+I686_TARGET = "i686-unknown-linux-gnu"
 BASE_RUSTFLAGS = "--cfg zerocopy_derive_union_into_bytes --cfg " + GUARD + " -A unexpected_cfgs -A deprecated -A unused"
 
 
@@ -27,7 +29,7 @@ def _dep(name, path, extra=""):
 
 
 def deps_for(hb):
-    if hb in ("std", "std-native"):
+    if hb in ("std", "std-native", "std-layout1", "std-layout4"):
         chacha = blake = jh = ""
     elif hb == "portable":
         chacha = ', features = ["no_simd"]'
@@ -54,6 +56,10 @@ HOST_BUILDS = {
     # run-time dispatch as shipped, but compiled for exactly this CPU: every cfg(target_feature = ..) path the machine
     # supports (AVX2, AVX-512 ...) is compiled in, as with RUSTFLAGS=-C target-cpu=native
     "std-native": "-C target-cpu=native",
+    # the compiler is part of the environment too: field order of ordinary (non-repr(C)) structs is unspecified; these two
+    # builds let nightly rustc randomise it (a layout assumption in unsafe code shows here and nowhere else)
+    "std-layout1": "-Zrandomize-layout -Zlayout-seed=1",
+    "std-layout4": "-Zrandomize-layout -Zlayout-seed=4",
     "portable": "--cfg hostbuild_fixed --cfg hostbuild_portable",
     "nostd-sse2": "--cfg hostbuild_fixed",
     "nostd-ssse3": "--cfg hostbuild_fixed -C target-feature=+ssse3",
@@ -93,7 +99,7 @@ def build(hb, profile):
         env["CARGO_NET_OFFLINE"] = "true"
         env["CARGO_TARGET_DIR"] = os.path.join(VERIF, "target", tag)
         env.pop("CARGO_ENCODED_RUSTFLAGS", None)
-        cmd = ["cargo", "build", "--offline", "--quiet", "--manifest-path", mpath]
+        cmd = ["cargo"] + (["+nightly"] if hb.startswith("std-layout") else []) + ["build", "--offline", "--quiet", "--manifest-path", mpath]
         if profile == "release":
             cmd.append("--release")
         elif profile != "dev":
@@ -383,6 +389,8 @@ prop(
         Leg("nostd-sse41", "release", "chacha_block", "C15", 100000, 1000000, max_ops=32),
         Leg("nostd-avx2", "release", "chacha_block", "C15", 100000, 1000000, max_ops=32),
         Leg("std-native", "release", "chacha_block", "C15", 100000, 1000000, max_ops=32),
+        Leg("std-layout1", "release", "chacha_block", "C15", 100000, 1000000, max_ops=32),
+        Leg("std-layout4", "release", "chacha_block", "C15", 0, 1000000, max_ops=32),
         Leg("nostd-sse2", "release", "chacha_block", "C15", 0, 1000000, max_ops=32),
         Leg("nostd-ssse3", "release", "chacha_block", "C15", 0, 1000000, max_ops=32),
         Leg("nostd-avx", "release", "chacha_block", "C15", 0, 1000000, max_ops=32),
@@ -566,6 +574,9 @@ prop(
         ("Skein512_64", 64 * 1024, Q, True),
     ],
     selftest=True,
+    # the same jumped-counter operations on hosts with another word size / byte order (Miri): a 32-bit usize must still
+    # count 2^32 bits
+    be_host={"quick": [(I686_TARGET, 1, "counters")], "thorough": [(I686_TARGET, 3, "counters"), (BE_TARGET, 1, "counters")]},
 )
 
 
@@ -836,7 +847,6 @@ def classify_miri(out):
 
 
 NW = 62
-BE_TARGET = "s390x-unknown-linux-gnu"
 
 
 def be_dirs():
@@ -854,28 +864,31 @@ def be_dirs():
     return bdir, mpath, tag
 
 
-def be_sysroot():
-    """Miri sysroot for the big-endian target, built once from rust-src (offline)."""
-    sysroot = os.path.join(VERIF, "target", "miri-sysroot-s390x")
-    if not os.path.isdir(os.path.join(sysroot, "lib", "rustlib", BE_TARGET)):
+HOST_DESCR = {BE_TARGET: "big-endian 64-bit host (s390x build interpreted by Miri)", I686_TARGET: "32-bit host (i686 build interpreted by Miri: usize is 32 bits)"}
+
+
+def be_sysroot(target=BE_TARGET):
+    """Miri sysroot for a foreign target, built once from rust-src (offline)."""
+    sysroot = os.path.join(VERIF, "target", "miri-sysroot-" + target.split("-")[0])
+    if not os.path.isdir(os.path.join(sysroot, "lib", "rustlib", target)):
         env = dict(os.environ, CARGO_NET_OFFLINE="true", MIRI_SYSROOT=sysroot)
         env.pop("RUSTFLAGS", None)
-        p = subprocess.run(["cargo", "+nightly", "miri", "setup", "--target", BE_TARGET], env=env, cwd=VERIF, stdout=subprocess.PIPE, stderr=subprocess.STDOUT, text=True)
+        p = subprocess.run(["cargo", "+nightly", "miri", "setup", "--target", target], env=env, cwd=VERIF, stdout=subprocess.PIPE, stderr=subprocess.STDOUT, text=True)
         if p.returncode != 0:
             log(p.stdout[-3000:])
-            raise HarnessError("could not build the Miri sysroot for " + BE_TARGET)
+            raise HarnessError("could not build the Miri sysroot for " + target)
     return sysroot
 
 
-def be_run(seed_, scale, sections, big):
+def be_run(seed_, scale, sections, big, target=BE_TARGET):
     bdir, mpath, tag = be_dirs()
     env = dict(os.environ)
     env["RUSTFLAGS"] = BASE_RUSTFLAGS
     env["CARGO_NET_OFFLINE"] = "true"
     if big:
-        env["MIRI_SYSROOT"] = be_sysroot()
-        env["CARGO_TARGET_DIR"] = os.path.join(VERIF, "target", tag)
-        cmd = ["cargo", "+nightly", "miri", "run", "--offline", "--quiet", "--target", BE_TARGET, "--manifest-path", mpath, "--", str(seed_), str(scale), sections]
+        env["MIRI_SYSROOT"] = be_sysroot(target)
+        env["CARGO_TARGET_DIR"] = os.path.join(VERIF, "target", tag + "-" + target.split("-")[0])
+        cmd = ["cargo", "+nightly", "miri", "run", "--offline", "--quiet", "--target", target, "--manifest-path", mpath, "--", str(seed_), str(scale), sections]
     else:
         env["CARGO_TARGET_DIR"] = os.path.join(VERIF, "target", tag + "-native")
         cmd = ["cargo", "run", "--offline", "--quiet", "--manifest-path", mpath, "--", str(seed_), str(scale), sections]
@@ -886,21 +899,29 @@ def be_run(seed_, scale, sections, big):
 def run_be_layer(pid, spec_be, tier, sd, replay_dir, results, violations, known):
     """The big-endian simulated host: the same seeded operation list natively (little-endian x86-64) and under Miri
     interpreting an s390x build; transcripts must be identical; the refill4 = 4 x refill assertions run on the host itself."""
-    scale, sections = spec_be[tier]
+    entry = spec_be[tier]
+    if isinstance(entry, list):
+        n = 0
+        for (target, scale, sections) in entry:
+            n += run_be_layer(pid, {tier: (scale, sections, target)}, tier, sd, replay_dir, results, violations, known)
+        return n
+    target = entry[2] if len(entry) > 2 else BE_TARGET
+    scale, sections = entry[0], entry[1]
     if not sections:
         return 0
+    hostname = "big-endian host" if target == BE_TARGET else "32-bit host"
     t0 = time.time()
     rc_le, out_le, err_le = be_run(sd, scale, sections, False)
     if rc_le != 0:
         log(err_le[-2000:])
         raise HarnessError("the little-endian twin of the big-endian host failed (rc=%s)" % rc_le)
-    rc_be, out_be, err_be = be_run(sd, scale, sections, True)
+    rc_be, out_be, err_be = be_run(sd, scale, sections, True, target)
     le = [l for l in out_le.splitlines() if l.startswith("T ")]
     be = [l for l in out_be.splitlines() if l.startswith("T ")]
     endian = [l for l in out_be.splitlines() if l.startswith("ENDIAN")]
-    if endian != ["ENDIAN big"]:
+    if endian != [("ENDIAN big" if target == BE_TARGET else "ENDIAN little")]:
         log(err_be[-2000:])
-        raise HarnessError("the big-endian host did not start (%s)" % endian)
+        raise HarnessError("the %s did not start (%s)" % (hostname, endian))
     diffs = {}
     for i, l in enumerate(le):
         name = l.split()[2]
@@ -909,25 +930,25 @@ def run_be_layer(pid, spec_be, tier, sd, replay_dir, results, violations, known)
         if be[i] != l:
             diffs.setdefault(name, []).append(i)
     failed = rc_be != 0
-    results.append(dict(host="big-endian s390x build interpreted by Miri", sections=sections, scale=scale, operations=len(le), operations_completed_on_host=len(be),
+    results.append(dict(host=HOST_DESCR[target], sections=sections, scale=scale, operations=len(le), operations_completed_on_host=len(be),
                         differing_operation_kinds=sorted(diffs), host_failed=failed, wall_s=round(time.time() - t0, 1)))
-    log("[%s] big-endian host: %d operations (%s), differing kinds %s, %s" % (pid, len(le), sections, sorted(diffs), "FAILED" if failed else "completed"))
+    log("[%s] %s: %d operations (%s), differing kinds %s, %s" % (pid, hostname, len(le), sections, sorted(diffs), "FAILED" if failed else "completed"))
     found = []
     if failed:
         tail = "\n".join(l for l in err_be.splitlines() if l.strip())[-1200:]
         what = "refill4 differs from four refills" if "refill4" in err_be else "panic" if "panicked" in err_be else "undefined behaviour" if "Undefined Behavior" in err_be else "abnormal exit"
-        found.append(("big-endian host fails:%s" % what, "after %d of %d operations: %s" % (len(be), len(le), tail)))
+        found.append(("%s fails:%s" % (hostname, what), "after %d of %d operations: %s" % (len(be), len(le), tail)))
     for name, idx in sorted(diffs.items()):
         fam = "jh" if name.startswith("jh") else name
-        found.append(("big-endian host differs:%s" % fam, "%d operations of kind %s give other results than on the little-endian hosts (first: line %d: LE %s / BE %s)" % (len(idx), name, idx[0], le[idx[0]].split()[3], be[idx[0]].split()[3])))
+        found.append(("%s differs:%s" % (hostname, fam), "%d operations of kind %s give other results than on the little-endian hosts (first: line %d: LE %s / BE %s)" % (len(idx), name, idx[0], le[idx[0]].split()[3], be[idx[0]].split()[3])))
     seen = set()
     for sig, detail in found:
         if sig in seen:
             continue
         seen.add(sig)
-        f = dict(kind="miri_be", verif_seed=sd, scale=scale, sections=sections, ops=[], minimised_from=len(le),
+        f = dict(kind="miri_be", verif_seed=sd, scale=scale, sections=sections, target=target, ops=[], minimised_from=len(le),
                  violation=dict(properties=[pid], invariant="B1", signature=sig, at_op=0, detail=detail))
-        path = os.path.join(replay_dir, "%s-be-%s.json" % (pid, hashlib.sha1(sig.encode()).hexdigest()[:8]))
+        path = os.path.join(replay_dir, "%s-%s-%s.json" % (pid, "be" if target == BE_TARGET else "i686", hashlib.sha1(sig.encode()).hexdigest()[:8]))
         json.dump(f, open(path, "w"))
         f["replay"] = path
         kf = open_finding_for(pid, sig)
@@ -1363,7 +1384,7 @@ def replay(pid, path):
         return 0
     if j.get("kind") == "miri_be":
         res, viol, kn = [], [], []
-        run_be_layer(pid, {"quick": (j["scale"], j["sections"]), "thorough": (j["scale"], j["sections"])}, "quick", j.get("verif_seed", 1), os.path.join(VERIF, "replays"), res, viol, kn)
+        run_be_layer(pid, {"quick": (j["scale"], j["sections"], j.get("target", BE_TARGET))}, "quick", j.get("verif_seed", 1), os.path.join(VERIF, "replays"), res, viol, kn)
         sig = j["violation"]["signature"]
         if any(f["violation"]["signature"] == sig for kf, f in kn):
             print("KNOWN-FINDING: property=%s %s" % (pid, [kf for kf, f in kn if f["violation"]["signature"] == sig][0].get("what")))
@@ -1508,6 +1529,11 @@ def setup():
             return 2
         rc_le, out_le, err_le = be_run(1, 1, "cipher", False)
         rc_be, out_be, err_be = be_run(1, 1, "cipher", True)
+        rc_32, out_32, err_32 = be_run(1, 1, "cipher", True, I686_TARGET)
+        if rc_32 != 0:
+            log(err_32[-1500:])
+            print("HARNESS-ERROR: the 32-bit host (Miri, %s) could not be started" % I686_TARGET)
+            return 2
         if rc_le != 0 or rc_be != 0:
             log(err_le[-1500:] + err_be[-1500:])
             print("HARNESS-ERROR: the big-endian host (Miri, %s) could not be started" % BE_TARGET)
